@@ -20,6 +20,12 @@ def concerns(ev, verdict):
         if out.get("o") in ("unproj", "bad"):
             s.add("C10")
     for p in parts[1:]:
+        if p.startswith("compile-") or p.startswith("lexer-") or p in ("mustcompile-disagrees", "string-panics", "returned-expression-cannot-be-evaluated"):
+            s.add("C08")
+        if p.startswith("lexer-token") or p.startswith("parse-"):
+            s.add("C04")
+        if p.startswith("denote-") or p.startswith("json-"):
+            s.add("C11")
         if p in ("input-modified", "binds-modified"):
             s.add("C07")
         elif p in ("ast-modified", "string-changed", "not-repeatable", "history-dependent"):
@@ -28,8 +34,15 @@ def concerns(ev, verdict):
             s.add("C10")
     return s
 
+def src_of(ev):
+    if "bytes" in ev:
+        return bytes(ev["bytes"]).decode("utf-8", "backslashreplace")
+    return cps_to_str(ev.get("src", []))
+
 def signature(ev, verdict):
     out = ev.get("out", {})
+    if "bytes" in ev and out.get("o") not in ("panic",):
+        return "%s:%s" % (verdict, src_of(ev)[:80])
     if out.get("o") == "panic":
         return "panic:%s:%s" % (out.get("site"), out.get("msg"))
     if out.get("o") in ("timeout", "crash"):
@@ -89,7 +102,7 @@ def run_pipeline(prop, fam, tier, seed, work, jh, specdir, stats):
     replay(jh, cases, trace, timeout_s=fam.get("case_timeout", 3))
     stats["replay_s"] = round(time.time() - t0, 1)
     t0 = time.time()
-    verdicts, gen, dist = validate(specdir, trace, timeout=fam.get("tlc_timeout", 3000))
+    verdicts, gen, dist = validate(specdir, trace, timeout=fam.get("tlc_timeout", 3000), module=fam.get("trace_module", "TraceEval"))
     stats["validate_s"] = round(time.time() - t0, 1)
     stats["v_states"] = dist
     stats["v_transitions"] = gen
@@ -114,12 +127,13 @@ def confirm(prop, fam, work, jh, specdir, evs, failing, cases_path=None):
     with open(cases, "w") as f:
         for i in failing:
             e = evs[i]
-            c = orig.get(i) or {"id": i, "fam": e.get("fam"), "src": cps_to_str(e["src"]), "inp": e["inp"], "binds": e.get("binds", [])}
+            c = orig.get(i) or ({"id": i, "fam": e.get("fam"), "mode": "compile", "bytes": e["bytes"]} if "bytes" in e else
+                                {"id": i, "fam": e.get("fam"), "src": cps_to_str(e["src"]), "inp": e["inp"], "binds": e.get("binds", [])})
             c.pop("exp", None)
             f.write(json.dumps(c) + "\n")
     trace = os.path.join(cdir, "trace.ndjson")
     replay(jh, cases, trace, timeout_s=fam.get("case_timeout", 3) * 3, jobs=8)
-    verdicts, _, _ = validate(specdir, trace, workers=8)
+    verdicts, _, _ = validate(specdir, trace, workers=8, module=fam.get("trace_module", "TraceEval"))
     return verdicts, load_trace(trace)
 
 def run_histories(prop, fam, tier, seed, work, jh, specdir, stats):
@@ -256,7 +270,7 @@ def main(argv):
                         ce = evs[i]
                     else:
                         raise Infra("disagreement on case %d (%s) did not reproduce in a fresh process: %s -> %s" %
-                                    (i, cps_to_str(evs[i]["src"]), mine[i], v2))
+                                    (i, src_of(evs[i]), mine[i], v2))
                 else:
                     ce = cevs[i]
                 k = match_known(known, ce, v2)
@@ -295,7 +309,7 @@ def main(argv):
             print("VIOLATION property=%s replay=%s" % (prop, os.path.relpath(path, VERIF)))
             if i is None:
                 continue
-            log("   case: %s | input %s | observed %s | verdict %s" % (cps_to_str(evs[i]["src"]), json.dumps(plain(evs[i]["inp"]))[:200], json.dumps(plain_out(evs[i]["out"]))[:200], v))
+            log("   case: %s | input %s | observed %s | verdict %s" % (src_of(evs[i]), json.dumps(plain(evs[i].get("inp")))[:200], json.dumps(plain_out(evs[i]["out"]))[:200], v))
         # evidence
         total = len(evs)
         nontrivial = set()
@@ -305,6 +319,10 @@ def main(argv):
         ids = sorted(evs)
         for i in ids:
             e = evs[i]
+            if e.get("ev") == "Lex":
+                if verdicts.get(i, "ok") == "ok" and e["out"].get("o") in ("ok", "err") and len(e.get("toks", [])) >= 2:
+                    nontrivial.add(json.dumps(e["bytes"]))
+                continue
             if e.get("ev") != "Eval":
                 continue
             o = e["out"].get("o")
@@ -312,6 +330,9 @@ def main(argv):
                 nontrivial.add(cps_to_str(e["src"]) + "|" + json.dumps(e["inp"], sort_keys=True))
         for i in rnd.sample(ids, min(6, len(ids))):
             e = evs[i]
+            if "bytes" in e:
+                samples.append({"input_bytes_as_text": src_of(e), "tokens": len(e.get("toks", [])), "observed": e["out"], "spec_verdict": verdicts.get(i, "ok")})
+                continue
             samples.append({"program": cps_to_str(e["src"]), "input": plain(e["inp"]), "observed": plain_out(e["out"]),
                             "spec_verdict": verdicts.get(i, "ok"), "direction": "G" if i <= stats["g_cases"] else "V"})
         coverage = {
